@@ -237,6 +237,10 @@ func init() {
 		th.m.divSplit = int(th.m.asInt(args[0]))
 		return nil
 	}
+	I[rtPkg+"ConcreteHashes"] = func(th *Thread, fn *ssa.Function, args []Value) Value {
+		th.m.concreteHashes = true
+		return nil
+	}
 	I[rtPkg+"HashInjective"] = func(th *Thread, fn *ssa.Function, args []Value) Value {
 		th.m.hashInjective = true
 		return nil
@@ -889,6 +893,13 @@ func (m *Machine) hashUF(name string, bs []*Term) *Term {
 		if !b.IsConst() {
 			allConst = false
 		}
+	}
+	if allConst && m.concreteHashes && name == "murmur3" {
+		raw := make([]byte, len(bs))
+		for i, b := range bs {
+			raw[i] = byte(b.Val)
+		}
+		return m.ts.Const(64, murmur3Sum64(raw))
 	}
 	for _, c := range m.hashCalls {
 		if c.fn != name || len(c.bytes) != len(bs) {
